@@ -135,3 +135,17 @@ reg("C12", "E2-history-bfs",
     "Local-file-system stores only (memory stores are assumed complete by design). Histories start from an empty "
     "destination and index. Two trees sharing one file.",
     "DESIGN.md §4 C12")
+
+reg("C01", "E2-history-bfs",
+    "explicit-state BFS over operation histories on the real stores; every object of every store re-hashed independently after every step",
+    "BFS to depth 3 (thorough 4) over 34 operations (stage+transfer, stage-with-upload+transfer, index build/"
+    "md5/save, single-file add, closed store-to-store transfer, migrate legacy md5-dos2unix -> md5, expanding "
+    "gc, and 'user left all objects writable') over LocalHashFileDB(md5), HashFileDB(md5) and "
+    "LocalHashFileDB(md5-dos2unix) and 3 trees (duplicate contents, empty file, non-ASCII / spaced names, "
+    "CRLF text, binary), with and without one shared State; canonical-state de-duplication from depth 2. "
+    "After every step: every non-temp file sits at <2>/<rest>, file objects hash (per the store's algorithm) "
+    "to their name, directory objects are the canonical encoding of their own listing and md5(bytes)+'.dir' "
+    "is their name, objects (re-)added to a local store are 0o444, memfs staging trees match their name, "
+    "migration gives every source object a destination twin named by the destination digest.",
+    "Temp names (*.tmp) are not objects. Trees <= 3 files; depth <= 4.",
+    "DESIGN.md §4 C01")
